@@ -37,7 +37,7 @@ let () =
       let b = Bytes.make (0x8000 lsl romc) '\000' in
       Bytes.set b 0x100 '\x18'; Bytes.set b 0x101 '\xfe';
       Bytes.set b 0x147 (Char.chr (ai a 2)); Bytes.set b 0x148 (Char.chr romc); Bytes.set b 0x149 (Char.chr (ai a 4));
-      let x = ok (sys_new (R_cart.image_of_bytes b) true (optb a 5 false)) in
+      let x = ok (sys_new (R_cart.image_of_bytes b) (optb a 7 true) (optb a 5 false)) in
       Hashtbl.replace insts (ai a 1) (x, (optb a 5 false, optb a 6 false)));
   register "gb.newsame" (fun a -> (Hashtbl.find Util.ops "gb.newloop") a);
   register "gb.frames" (fun a -> for _ = 1 to ai a 2 do put (ai a 1) (ok (sys_run_frame (get (ai a 1)))) done);
